@@ -2,6 +2,7 @@ import PugModel.Driver.C18
 import PugModel.Driver.C17
 import PugModel.Driver.Render
 import PugModel.Driver.C12
+import PugModel.Driver.C11
 /-!
 `pvd`: the model driver. One JSON case per line on stdin (the line the harness produced, with the
 implementation's answer merged in under "impl" for the cases whose model is relative to measured
@@ -14,7 +15,9 @@ def dispatch (c : Json) : Json × Json :=
   | "math" => runMath c
   | "partials" => runPartials c (jget c "impl")
   | "render" => runRender c
+  | "pure" => runRender c
   | "json" => runJson c
+  | "gopath" => runGoPath c
   | k => (clsOut "no-model" k, clsOut "no-model" k)
 
 partial def loop (h : IO.FS.Stream) (out : IO.FS.Stream) : IO Unit := do
